@@ -19,7 +19,7 @@ def parseUDToJson(subType, version, data):
     if beh == 'none':
         return None
     if beh == 'raise':
-        raise ValueError('fixture parser %s refuses this section' % NAME)
+        raise verif_fixture.failure(NAME, raw)
     if beh == 'raise_empty':
         raise ValueError          # an exception whose message is empty
     if beh == 'importerror':
